@@ -64,11 +64,11 @@ const char* linearizable(int init, int final_value);
 enum OpC : uint8_t {
     X_LOCK, X_LOCK_UNLOCK, X_TRY, X_TRY_FOR, X_TRY_UNTIL, LOAD, STORE, ASSIGN, MODIFY, MODIFY_RET,
     S_LOCK, S_TRY, S_TRY_FOR, S_TRY_UNTIL, S_CONST_LOCK, READ, READ_RET, MOD_DETACH, MOD_ASYNC,
-    EXCHANGE, CAS, CONVERT, X_RETRY, S_RETRY, X_HANDOVER, S_HANDOVER, NOPC
+    EXCHANGE, CAS, CONVERT, X_RETRY, S_RETRY, X_HANDOVER, S_HANDOVER, X_TRY_UNLOCK, S_TRY_UNLOCK, NOPC
 };
 extern const char* opc_name[NOPC];
 extern void* g_other;  // a second wrapper of the same type (hand-over-hand programs)
-inline bool is_shared_op(int c) { return (c >= S_LOCK && c <= READ_RET) || c == S_RETRY || c == S_HANDOVER; }
+inline bool is_shared_op(int c) { return (c >= S_LOCK && c <= READ_RET) || c == S_RETRY || c == S_HANDOVER || c == S_TRY_UNLOCK; }
 
 struct Instance {
     std::string name;
